@@ -1660,12 +1660,49 @@ def opt_history_execs(ctx, r, nsample, families, exact=True, maxops=3, ids="{1, 
     return execs
 
 
+def c09_mapswap_execs(r, quick):
+    """user spatial maps that differ in the number of unconstrained coordinates of ONE point (first, an inner one, the last): an optimizer
+    whose layout has been read is re-bound from one to the other (and back to its default map) and read again; a second optimizer bound
+    to the new map from the start gives the same script its fresh reference (everything is judged exactly by the specification anyway)"""
+    execs = []
+    k = 0
+    for order in gen.ORDERS:
+        for D in (2, 3):
+            for N in (1, 2, 3):
+                for pin in sorted(set((0, N // 2 if N > 1 else 0, N))):
+                    for (first, second) in ((-1, pin), (pin, -1), (pin, "default"), ("default", pin)):
+                        k += 1
+                        if quick and (k + order) % 2:
+                            continue
+                        flags = [True, k % 2 == 0, False, False, True, k % 3 == 0, False, False]
+                        p = gen.OptProblem(r, order, D, N, "sq" if k % 2 else "quad", "lift", flags=flags, K=2, rho=0.5)
+                        cmds = [{"op": "reset"}, {"op": "smap_new", "map": 1, "gain": gen.hx(0.5), "pin": -1 if first == "default" else first},
+                                {"op": "smap_new", "map": 2, "gain": gen.hx(0.5), "pin": -1 if second == "default" else second}]
+                        cmds += p.cmds_setup(1, user_smap=None if first == "default" else 1)
+
+                        def reads(obj, pn):
+                            n, _, _ = gen.opt_layout(order, D, N, flags, "lift", pin=pn)
+                            x = [r.dyadic(-0.5, 0.5, 8) for _ in range(N)] + [(17 + q) / 8.0 for q in range(n - N)]
+                            return [{"op": "get_dim", "obj": obj}, {"op": "init_guess", "obj": obj},
+                                    {"op": "evaluate", "obj": obj, "x": gen.hv(x), "ws": 0, "costs": gen.cost_params(r), "overload": 3}]
+                        pin1 = -1 if first == "default" else first
+                        pin2 = -1 if second == "default" else second
+                        cmds += reads(1, pin1)[: 1 + k % 3]                      # the layout has been read (by one, two or all three readers)
+                        cmds.append({"op": "set_smap", "obj": 1, "map": 0 if second == "default" else 2})
+                        cmds += reads(1, pin2)
+                        cmds += p.cmds_setup(2, user_smap=None if second == "default" else 2)
+                        cmds += reads(2, pin2)
+                        execs.append((len(cmds) * D * (order + 1), cmds))
+    return execs
+
+
 def plan_C09(ctx):
     selftest_rat(ctx)
     mc_optmath(ctx)
     mc_optobj(ctx)
     r = gen.Rng(ctx.seed * 1000003 + 9)
     execs = c09_config_execs(r, ctx.quick())
+    mexecs = c09_mapswap_execs(r, ctx.quick())
     # reconfiguration histories: two optimizers up to 4 calls, and ONE optimizer up to 6 calls (setter / query / setter / query ...)
     hexecs = opt_history_execs(ctx, r, 200 if ctx.quick() else 5000, FAMILIES) + \
         opt_history_execs(ctx, r, 1200 if ctx.quick() else 20000, FAMILIES, maxops=5, ids="{1}") + \
@@ -1675,13 +1712,14 @@ def plan_C09(ctx):
     exe = vbuild.opt_replay()
     ctx.family, ctx.tracespec, ctx.env_flags = "opt", "TraceOpt", {"VJ_EXACT": "0"}
     replay_and_validate(ctx, exe, b1, "TraceOpt", {"VJ_EXACT": "0"})
-    return opt_finish(ctx, balanced(hexecs, 24 if ctx.quick() else 64), {}, 
+    return opt_finish(ctx, balanced(hexecs + mexecs, 24 if ctx.quick() else 64), {}, 
                       "layout laws are TLC theorems on a grid (MCOptMath) and the lazily rebuilt layout cache is explored exhaustively with every "
                       "setter / reader / copy interleaving (MCOptObj, 4 broken twins rejected); on the real class all 256 flag settings x 3 orders x "
                       "N 1..6 x dimension 1..3 x {identity, reduced-dof} spatial map (quick: a 1/8 sample containing every flag setting x order): "
                       "getDimension, initial guess (decodes to the reference; exact parts bit-identical), evaluation of a marker vector (decoded "
                       "durations / waypoints / boundary blocks, pinned quantities bit-identical to the reference, getOptimalSpline is that spline); "
-                      "plus one script per transition of the reconfiguration model", {"C09"})
+                      "plus one script per transition of the reconfiguration model, plus re-binding between user spatial maps that differ in the dof of one "
+                      "point (first / inner / last) after the layout has been read", {"C09"})
 
 
 def c15_ownership_execs(r):
